@@ -161,6 +161,35 @@ func readervecMain(args []string) int {
 		fmt.Fprintln(os.Stderr, "no vectors", err)
 		return 2
 	}
+	// DetectFile and DetectReader(*os.File) on regular files of every size around the limit
+	filePayloads := append([][]byte{[]byte(`{"type":"Feature","geometry":null}`), []byte("{\"a\":1}\n{\"b\":2}\n{\"c\":"), []byte("a,b\n1,2\n3,4")}, readerPayloads...)
+	for _, payload := range filePayloads {
+		for size := 0; size <= len(payload); size++ {
+			data := payload[:size]
+			p := filepath.Join(tmp, "g")
+			os.WriteFile(p, data, 0o600)
+			for _, lim := range []int{0, size - 1, size, size + 1, size + 7, 3072} {
+				if lim < 0 {
+					continue
+				}
+				mimetype.SetLimit(uint32(lim))
+				want := mimetype.Detect(exact(data))
+				got, gerr := mimetype.DetectFile(p)
+				n++
+				if gerr != nil || got.String() != want.String() || got.Extension() != want.Extension() {
+					rep.violate(Violation{Property: "C05", Kind: "file-differs-from-bytes", Text: fmt.Sprintf("%q limit %d", data, lim), Limit: int64(lim), Detail: fmt.Sprintf("DetectFile=%s err=%v Detect=%s", got, gerr, want), Key: fmt.Sprintf("C05|file|%x|%d", data, lim)})
+				}
+				f, err := os.Open(p)
+				if err == nil {
+					got2, gerr2 := mimetype.DetectReader(f)
+					f.Close()
+					if gerr2 != nil || got2.String() != want.String() {
+						rep.violate(Violation{Property: "C05", Kind: "osfile-reader-differs-from-bytes", Text: fmt.Sprintf("%q limit %d", data, lim), Limit: int64(lim), Detail: fmt.Sprintf("DetectReader(*os.File)=%s err=%v Detect=%s", got2, gerr2, want), Key: fmt.Sprintf("C05|osfile|%x|%d", data, lim)})
+					}
+				}
+			}
+		}
+	}
 	// file errors
 	for _, p := range []string{filepath.Join(tmp, "missing"), tmp} {
 		got, gerr := mimetype.DetectFile(p)
